@@ -2,7 +2,7 @@
    G5 shape evaluated. *)
 From Coq Require Import List Bool Arith Lia.
 From ME Require Import Base.Machine Model.Locks Proofs.Locks_Proofs Model.Layers Model.LayerShapes
-  Proofs.Layers_Exec Proofs.Layers_Wf Proofs.Layers_Deadlock Proofs.Layers_Refute Proofs.Layers_Solo Proofs.Layers_Seq Proofs.Layers_Num.
+  Proofs.Layers_Exec Proofs.Layers_Wf Proofs.Layers_Deadlock Proofs.Layers_Refute Proofs.Layers_Solo Proofs.Layers_Seq Proofs.Layers_Num Proofs.Layers_Sync.
 Import ListNotations.
 
 (* ---- 1. cancel_on_shutdown / throttle / retry / pool: user submit, hand-over thread, retry thread, pool worker ---- *)
@@ -100,9 +100,15 @@ Proof.
   vm_compute. intros H. repeat (destruct H as [H|H]; [discriminate H|]). exact H.
 Qed.
 
-Lemma nested_in_callable_facts :
-  wf_layers KL 0 nested_in_callable = false /\ ordered [] (flat KL 0 nested_in_callable) = false /\
-  balanced [] (flat KL 0 nested_in_callable) = true.
+(* the callable of the (repaired) synchronous executor submits to the map executor again: well-formed *)
+Lemma nested_in_callable_wf : wf_layers KL 0 nested_in_callable = true.
+Proof. vm_compute. reflexivity. Qed.
+
+(* the code before commit 3a8457b: the same under the sync gate *)
+Lemma nested_in_callable_before_fix_facts :
+  wf_layers KL 0 nested_in_callable_before_fix = false /\
+  ordered [] (flat KL 0 nested_in_callable_before_fix) = false /\
+  balanced [] (flat KL 0 nested_in_callable_before_fix) = true.
 Proof. vm_compute. repeat split. Qed.
 
 (* G5: the gate of layer 0 as a plain Lock: the very same program blocks on itself for ever *)
@@ -127,6 +133,14 @@ Lemma nested_in_callable_returns :
   exists s', run step (init_of (only 0 (flat KL 0 nested_in_callable))) (solo 0 (length (flat KL 0 nested_in_callable))) = Some s' /\
              (forall t, prog s' t = []) /\ (forall l, owner s' l = None).
 Proof.
+  exact (layers_solo_returns KL 0 {| l_start := 0; l_prog := nested_in_callable |} nested_in_callable_wf).
+Qed.
+
+Lemma nested_in_callable_before_fix_returns :
+  exists s', run step (init_of (only 0 (flat KL 0 nested_in_callable_before_fix)))
+                 (solo 0 (length (flat KL 0 nested_in_callable_before_fix))) = Some s' /\
+             (forall t, prog s' t = []) /\ (forall l, owner s' l = None).
+Proof.
   apply solo_balanced_returns. vm_compute. reflexivity.
 Qed.
 
@@ -144,33 +158,71 @@ Proof.
   pose proof (stack4_api_wf (start t)) as F. rewrite Forall_forall in F. apply F. exact (Hincl t p Hp).
 Qed.
 
-(* ---- map over a synchronous executor, entered through the top: ordered under the gates-first numbering ---- *)
-Lemma map_sync_api_ordered :
-  Forall (fun p => ordered [] (flatn (gate_first LS KL) 0 p) = true) map_sync_api.
-Proof. unfold map_sync_api. repeat constructor. Qed.
+(* ---- map over the (repaired) synchronous executor, entered at the top AND directly at the sync layer ---- *)
+Lemma map_sync_api_wf : forall layer, Forall (fun p => wf_layers KL layer p = true) (map_sync_api layer).
+Proof. intros [|[|l]]; simpl; repeat constructor. Qed.
 
-Lemma map_sync_any_calls_no_deadlock : forall n (calls : nat -> list (list lp)),
-  (forall t, incl (calls t) map_sync_api) -> (forall t, n <= t -> calls t = []) ->
+Lemma map_sync_any_calls_no_deadlock : forall n start (calls : nat -> list (list lp)),
+  (forall t, incl (calls t) (map_sync_api (start t))) -> (forall t, n <= t -> calls t = []) ->
+  forall s, reachable_from step (init_of (fun t => lflat KL (seq_thread start calls t))) s ->
+  (exists t, prog s t <> []) -> exists t s', step s t = Some s'.
+Proof.
+  intros n start calls Hincl Hn. apply (layers_calls_no_deadlock KL n); auto.
+  intros t. apply Forall_forall. intros p Hp.
+  pose proof (map_sync_api_wf (start t)) as F. rewrite Forall_forall in F. apply F. exact (Hincl t p Hp).
+Qed.
+
+(* G20 repaired: the two threads of the gate inversion on the code since commit 3a8457b *)
+Lemma gate_inversion_idle : forall t, 2 <= t -> l_prog (gate_inversion_threads t) = [].
+Proof. intros [|[|t]] H; try lia. reflexivity. Qed.
+
+Lemma gate_inversion_repaired :
+  (forall t, lwf KL (gate_inversion_threads t) = true) /\
+  In (l_prog (gate_inversion_threads 0)) (map_sync_api 0) /\ In (l_prog (gate_inversion_threads 1)) (map_sync_api 1) /\
+  (forall s, reachable_from step (init_of (fun t => lflat KL (gate_inversion_threads t))) s ->
+             (exists t, prog s t <> []) -> exists t s', step s t = Some s') /\
+  (* the schedule prefix that deadlocked before the repair now extends to a run in which both calls return *)
+  exists s, run step (init_of (fun t => lflat KL (gate_inversion_threads t)))
+                (gate_inversion_schedule ++ [1] ++ repeat 0 11 ++ repeat 1 12) = Some s /\
+            (forall t, prog s t = []) /\ (forall l, owner s l = None).
+Proof.
+  assert (W : forall t, lwf KL (gate_inversion_threads t) = true).
+  { intros [|[|t]]; vm_compute; reflexivity. }
+  split; [exact W|]. split; [left; reflexivity|]. split; [right; left; reflexivity|].
+  split; [exact (layers_no_deadlock KL 2 gate_inversion_threads W gate_inversion_idle)|].
+  eexists. split; [vm_compute; reflexivity|]. split; [intros [|[|t]]; reflexivity|].
+  intros l. do 30 (destruct l as [|l]; [reflexivity|]). reflexivity.
+Qed.
+
+(* ---- the code BEFORE commit 3a8457b: map over a synchronous executor, entered through the top: ordered under the
+   gates-first numbering ---- *)
+Lemma map_sync_api_before_fix_ordered :
+  Forall (fun p => ordered [] (flatn (gate_first LS KL) 0 p) = true) map_sync_api_before_fix.
+Proof. unfold map_sync_api_before_fix. repeat constructor. Qed.
+
+Lemma map_sync_before_fix_any_calls_no_deadlock : forall n (calls : nat -> list (list lp)),
+  (forall t, incl (calls t) map_sync_api_before_fix) -> (forall t, n <= t -> calls t = []) ->
   forall s, reachable_from step (init_of (fun t => flatn (gate_first LS KL) 0 (concat (calls t)))) s ->
   (exists t, prog s t <> []) -> exists t s', step s t = Some s'.
 Proof.
   intros n calls Hincl Hn. apply (numbered_calls_no_deadlock (gate_first LS KL) n (fun _ => 0)); auto.
   intros t. apply Forall_forall. intros p Hp.
-  pose proof map_sync_api_ordered as F. rewrite Forall_forall in F. apply F. exact (Hincl t p Hp).
+  pose proof map_sync_api_before_fix_ordered as F. rewrite Forall_forall in F. apply F. exact (Hincl t p Hp).
 Qed.
 
 (* the shape outside wf_layers is in that API, and the lexicographic numbering rejects it *)
-Lemma map_sync_api_has_nested_in_callable :
-  In nested_in_callable map_sync_api /\ wf_layers KL 0 nested_in_callable = false /\
-  ordered [] (flatn (glob KL) 0 nested_in_callable) = false /\
-  ordered [] (flatn (gate_first LS KL) 0 nested_in_callable) = true.
+Lemma map_sync_api_before_fix_has_nested_in_callable :
+  In nested_in_callable_before_fix map_sync_api_before_fix /\
+  wf_layers KL 0 nested_in_callable_before_fix = false /\
+  ordered [] (flatn (glob KL) 0 nested_in_callable_before_fix) = false /\
+  ordered [] (flatn (gate_first LS KL) 0 nested_in_callable_before_fix) = true.
 Proof. split; [right; right; right; left; reflexivity|]. vm_compute. repeat split. Qed.
 
-(* ---- the same stack entered at two layers: gate inversion, no retry executor involved ---- *)
+(* ---- G20, the code BEFORE commit 3a8457b: the same stack entered at two layers: gate inversion, no retry executor ---- *)
 Lemma gate_inversion_deadlock :
-  lwf KL (gate_inversion_threads 0) = true /\ lwf KL (gate_inversion_threads 1) = false /\
-  ordered [] (flatn (gate_first LS KL) 1 sync_direct_nested) = false /\
-  exists s, run step (init_of (fun t => lflat KL (gate_inversion_threads t))) gate_inversion_schedule = Some s /\
+  lwf KL (gate_inversion_threads_before_fix 0) = true /\ lwf KL (gate_inversion_threads_before_fix 1) = false /\
+  ordered [] (flatn (gate_first LS KL) 1 sync_direct_nested_before_fix) = false /\
+  exists s, run step (init_of (fun t => lflat KL (gate_inversion_threads_before_fix t))) gate_inversion_schedule = Some s /\
             owner s (glob KL 0 G) = Some 0 /\ owner s (glob KL 1 G) = Some 1 /\
             (exists r, prog s 0 = Acq (glob KL 1 G) :: r) /\ (exists r, prog s 1 = Acq (glob KL 0 G) :: r) /\
             forall t, step s t = None.
@@ -180,4 +232,41 @@ Proof.
   split; [reflexivity|]. split; [reflexivity|].
   split; [eexists; reflexivity|]. split; [eexists; reflexivity|].
   intros [|[|t]]; reflexivity.
+Qed.
+
+(* ---- PollExecutor over a pool; FlatMapExecutor over a pool whose map function submits to the executor itself ---- *)
+Lemma poll_api_wf : forall layer, Forall (fun p => wf_layers KL layer p = true) (poll_api layer).
+Proof. intros [|[|l]]; simpl; repeat constructor. Qed.
+
+Lemma poll_any_calls_no_deadlock : forall n start (calls : nat -> list (list lp)),
+  (forall t, incl (calls t) (poll_api (start t))) -> (forall t, n <= t -> calls t = []) ->
+  forall s, reachable_from step (init_of (fun t => lflat KL (seq_thread start calls t))) s ->
+  (exists t, prog s t <> []) -> exists t s', step s t = Some s'.
+Proof.
+  intros n start calls Hincl Hn. apply (layers_calls_no_deadlock KL n); auto.
+  intros t. apply Forall_forall. intros p Hp.
+  pose proof (poll_api_wf (start t)) as F. rewrite Forall_forall in F. apply F. exact (Hincl t p Hp).
+Qed.
+
+(* the deepest nesting of the Poll machine: gate, X, M held by one thread, then released in order *)
+Lemma poll_nested_gate_X_M :
+  exists pre post, flat KL 0 poll_submit_delegate_done =
+    Acq (glob KL 0 G) :: pre ++ [Acq (glob KL 0 pX); Acq (glob KL 0 (pM 0))] ++ post /\
+    ~ In (Rel (glob KL 0 G)) pre.
+Proof.
+  eexists [_; _; _; _; _; _; _; _]. eexists. split; [vm_compute; reflexivity|].
+  vm_compute. intros H. repeat (destruct H as [H|H]; [discriminate H|]). exact H.
+Qed.
+
+Lemma flat_map_api_wf : forall layer, Forall (fun p => wf_layers KL layer p = true) (flat_map_api layer).
+Proof. intros [|[|l]]; simpl; repeat constructor. Qed.
+
+Lemma flat_map_any_calls_no_deadlock : forall n start (calls : nat -> list (list lp)),
+  (forall t, incl (calls t) (flat_map_api (start t))) -> (forall t, n <= t -> calls t = []) ->
+  forall s, reachable_from step (init_of (fun t => lflat KL (seq_thread start calls t))) s ->
+  (exists t, prog s t <> []) -> exists t s', step s t = Some s'.
+Proof.
+  intros n start calls Hincl Hn. apply (layers_calls_no_deadlock KL n); auto.
+  intros t. apply Forall_forall. intros p Hp.
+  pose proof (flat_map_api_wf (start t)) as F. rewrite Forall_forall in F. apply F. exact (Hincl t p Hp).
 Qed.
